@@ -3,6 +3,7 @@ package sim
 import (
 	"encoding/json"
 	"fmt"
+	"strings"
 
 	"github.com/luthersystems/elps/lisp"
 )
@@ -29,10 +30,21 @@ type LimitsCase struct {
 	Depth  int  `json:"depth,omitempty"`   // recursion depth / nesting depth / loop turns / expansions
 	MaxLim int  `json:"max_lim,omitempty"` // sweep the limit over [1,MaxLim]
 	Caught bool `json:"caught,omitempty"`  // program wraps the overflow in handler-bind
+	// entry mode: Prelude is loaded fault-free, then the host calls an entry
+	// point other than Load* under the budget / context
+	Prelude []*Node    `json:"prelude,omitempty"`
+	Entry   *EntrySpec `json:"entry,omitempty"`
 
 	hintBudget int64
 	hintCancel int64
 	hintLimit  int
+}
+
+// EntrySpec describes a host call through an entry point other than Load*.
+type EntrySpec struct {
+	Kind string `json:"kind"` // FunCall | FunCallContext | SpecialOpCall | MacroCall | Eval | EvalContext | EvalSExpr
+	Fun  string `json:"fun"`  // symbol naming the function / operator / macro to call
+	Args string `json:"args"` // source of the argument expressions (evaluated fault-free for FunCall*, passed unevaluated otherwise)
 }
 
 type limitsEngine struct{}
@@ -55,7 +67,46 @@ func (limitsEngine) Decode(raw []byte) (any, error) {
 
 func (limitsEngine) Gen(r *Rand, tier string) any {
 	c := &LimitsCase{}
-	switch r.Pick([]int{70, 6, 6, 6, 6, 6}) {
+	switch r.Pick([]int{70, 6, 6, 6, 6, 6, 14}) {
+	case 6:
+		c.Mode = "entry"
+		o := GenOpts{Swallow: r.Chance(1, 3), Errors: r.Chance(1, 4), LoadStr: r.Chance(1, 3), Macros: r.Chance(1, 3), Callbacks: r.Chance(1, 2),
+			Budget: r.Range(20, 80), MaxFuel: r.Range(2, 5)}
+		g := NewPGen(r.Fork(), o)
+		c.Prelude = g.Defs(3)
+		g.vars = []string{"x"}
+		cb1 := g.Probe(g.E(r.Range(1, 3)))
+		g.vars = []string{"a", "b"}
+		cb2 := g.Probe(g.E(r.Range(1, 3)))
+		g.vars = nil
+		c.Prelude = append(c.Prelude,
+			L(A("defun"), A("cb1"), L(A("x")), cb1),
+			L(A("defun"), A("cb2"), L(A("a"), A("b")), cb2),
+			L(A("defun"), A("lt"), L(A("a"), A("b")), Call("<", g.Probe(A("a")), A("b"))),
+			L(A("defmacro"), A("mac1"), L(A("x")), Call("quasiquote", Call("+", I(1), Call("unquote", A("x"))))))
+		lst := fmt.Sprintf("(list %d %d %d %d)", r.Range(0, 9), r.Range(0, 9), r.Range(0, 9), r.Range(0, 9))
+		body := g.Probe(g.E(2)).String() + " " + g.Probe(g.E(2)).String()
+		specs := []EntrySpec{
+			{"FunCall", "map", "'list cb1 " + lst}, {"FunCallContext", "map", "'vector cb1 " + lst},
+			{"FunCall", "foldl", "cb2 0 " + lst}, {"FunCallContext", "foldr", "cb2 0 " + lst},
+			{"FunCall", "funcall", "cb1 3"}, {"FunCallContext", "apply", "cb2 1 (list 2)"},
+			{"FunCall", "stable-sort", "lt " + lst}, {"FunCallContext", "select", "'list (lambda (x) (< (cb1 x) 3)) " + lst},
+			{"FunCall", "cb1", "4"}, {"FunCallContext", "cb2", "1 2"},
+			{"SpecialOpCall", "progn", body}, {"SpecialOpCall", "let", "((q 1)) " + body},
+			{"SpecialOpCall", "dotimes", "(i 3) " + body}, {"SpecialOpCall", "ignore-errors", body},
+			{"MacroCall", "mac1", "5"}, {"MacroCall", "defun", "zzf (a) " + body},
+			{"Eval", "progn", body}, {"EvalContext", "progn", body}, {"EvalSExpr", "progn", body},
+		}
+		sp := specs[r.Intn(len(specs))]
+		c.Entry = &sp
+		g2 := NewPGen(r.Fork(), GenOpts{Budget: 25, MaxFuel: 3})
+		g2.globs = g.globs
+		c.Forms2 = []*Node{g2.Probe(g2.E(3))}
+		c.Knobs.TRO = PickStr(r, []string{"", "", "debugger", "profiler"})
+		c.Sweep = true
+		for i := 0; i < 24; i++ {
+			c.Picks = append(c.Picks, r.U64())
+		}
 	case 0:
 		c.Mode = "general"
 		o := GenOpts{
@@ -228,6 +279,73 @@ func runLimits(k Knobs, budget int64, cancelAt int64, forms []*Node) (*limRun, e
 	return &limRun{w: w, out: out}, nil
 }
 
+// run executes the case's program (or its host entry call) under a budget
+// and a cancellation index.
+func (c *LimitsCase) run(k Knobs, budget, cancelAt int64) (*limRun, error) {
+	if c.Entry == nil {
+		return runLimits(k, budget, cancelAt, c.Forms)
+	}
+	k.MaxSteps = hugeBudget
+	k.UseSimCtx = false
+	w, err := NewWorld(k)
+	if err != nil {
+		return nil, err
+	}
+	if o := w.Load(c.Prelude); o.IsErr {
+		return nil, fmt.Errorf("entry prelude failed: %s", o.Result())
+	}
+	e := c.Entry
+	fun := w.Env.Get(lisp.Symbol(e.Fun))
+	if fun.Type != lisp.LFun {
+		return nil, fmt.Errorf("entry function %s is not a function", e.Fun)
+	}
+	var args *lisp.LVal
+	switch e.Kind {
+	case "FunCall", "FunCallContext":
+		o := w.LoadString("(list " + e.Args + ")")
+		if o.IsErr || o.Val == nil {
+			return nil, fmt.Errorf("entry arguments failed: %s", o.Result())
+		}
+		args = lisp.SExpr(append([]*lisp.LVal(nil), o.Val.Cells...))
+	default:
+		exprs, perr := parseOne("(zz " + e.Args + ")")
+		if perr != nil {
+			return nil, perr
+		}
+		args = lisp.SExpr(exprs.Cells[1:])
+	}
+	w.Events = nil
+	ctx := NewSimCtx(w)
+	ctx.CancelAt = cancelAt
+	w.Ctx = ctx
+	lisp.WithMaxSteps(budget)(w.Env)
+	lisp.WithContext(ctx)(w.Env) // the non-Context entry points use the environment's own context
+	out := w.Call(func() *lisp.LVal {
+		switch e.Kind {
+		case "FunCall":
+			return w.Env.FunCall(fun, args)
+		case "FunCallContext":
+			return w.Env.FunCallContext(ctx, fun, args)
+		case "SpecialOpCall":
+			return w.Env.SpecialOpCall(fun, args)
+		case "MacroCall":
+			v := w.Env.MacroCall(fun, args)
+			if v != nil && v.Type != lisp.LError {
+				return lisp.Nil()
+			}
+			return v
+		case "Eval":
+			return w.Env.Eval(lisp.SExpr(append([]*lisp.LVal{lisp.Symbol(e.Fun)}, args.Cells...)))
+		case "EvalContext":
+			return w.Env.EvalContext(ctx, lisp.SExpr(append([]*lisp.LVal{lisp.Symbol(e.Fun)}, args.Cells...)))
+		default:
+			return w.Env.EvalSExpr(lisp.SExpr(append([]*lisp.LVal{lisp.Symbol(e.Fun)}, args.Cells...)))
+		}
+	})
+	w.K.UseSimCtx = true // later loads (refill check) go through LoadStringContext with the live context
+	return &limRun{w: w, out: out}, nil
+}
+
 func evHash(h Hash, evs []Event, out Outcome) Hash {
 	for _, e := range evs {
 		h = h.Str(e.Key()).Int(e.Steps)
@@ -238,7 +356,7 @@ func evHash(h Hash, evs []Event, out Outcome) Hash {
 func (e limitsEngine) Run(ci any, st *Stats) *Violation {
 	c := ci.(*LimitsCase)
 	switch c.Mode {
-	case "general":
+	case "general", "entry":
 		return e.runGeneral(c, st)
 	case "meter":
 		return e.runMeter(c, st)
@@ -277,8 +395,11 @@ func cmpEvents(a, b []Event) string {
 
 func (e limitsEngine) runGeneral(c *LimitsCase, st *Stats) *Violation {
 	c.hintBudget, c.hintCancel = 0, 0
-	ref, err := runLimits(c.Knobs, hugeBudget, 0, c.Forms)
+	ref, err := c.run(c.Knobs, hugeBudget, 0)
 	if err != nil {
+		if c.Entry != nil {
+			return nil // a shrink candidate whose prelude or arguments no longer evaluate
+		}
 		return Violf("harness", "%v", err)
 	}
 	st.Runs++
@@ -308,7 +429,10 @@ func (e limitsEngine) runGeneral(c *LimitsCase, st *Stats) *Violation {
 	if N != P {
 		return Violf("step-not-cancellable", "after run: steps=%d but context polled %d times", N, P)
 	}
-	swallow := hasSwallow(c.Forms)
+	swallow := hasSwallow(c.Forms) || hasSwallow(c.Prelude) || (c.Entry != nil && (strings.Contains(c.Entry.Args+" "+c.Entry.Fun, "ignore-errors") || strings.Contains(c.Entry.Args+" "+c.Entry.Fun, "handler-bind")))
+	if c.Entry != nil {
+		st.Inc("entry_" + c.Entry.Kind + "_" + c.Entry.Fun)
+	}
 	if swallow {
 		st.Inc("programs_with_swallow")
 	}
@@ -369,7 +493,7 @@ func (e limitsEngine) runGeneral(c *LimitsCase, st *Stats) *Violation {
 }
 
 func (e limitsEngine) checkBudget(c *LimitsCase, st *Stats, ref *limRun, n, N int64, swallow bool) *Violation {
-	run, err := runLimits(c.Knobs, n, 0, c.Forms)
+	run, err := c.run(c.Knobs, n, 0)
 	if err != nil {
 		return Violf("harness", "%v", err)
 	}
@@ -421,7 +545,7 @@ func (e limitsEngine) checkBudget(c *LimitsCase, st *Stats, ref *limRun, n, N in
 	}
 	// 5. refill: the next top-level evaluation starts with a full budget
 	if len(c.Forms2) > 0 {
-		twin, err := runLimits(c.Knobs, n, 0, c.Forms)
+		twin, err := c.run(c.Knobs, n, 0)
 		if err != nil {
 			return Violf("harness", "%v", err)
 		}
@@ -459,7 +583,7 @@ func relEvents(evs []Event) []Event {
 }
 
 func (e limitsEngine) checkCancel(c *LimitsCase, st *Stats, ref *limRun, k, P int64, swallow bool) *Violation {
-	run, err := runLimits(c.Knobs, hugeBudget, k, c.Forms)
+	run, err := c.run(c.Knobs, hugeBudget, k)
 	if err != nil {
 		return Violf("harness", "%v", err)
 	}
@@ -729,7 +853,7 @@ func (e limitsEngine) Shrink(ci any) []any {
 		d.hintBudget, d.hintCancel, d.hintLimit = 0, 0, 0
 		return &d
 	}
-	if c.Mode != "general" {
+	if c.Mode != "general" && c.Mode != "entry" {
 		return nil
 	}
 	// pin the failing placement
@@ -754,7 +878,21 @@ func (e limitsEngine) Shrink(ci any) []any {
 		d.Knobs = Knobs{UseSimCtx: true}
 		out = append(out, d)
 	}
+	for _, f := range ShrinkForms(c.Prelude, 300) {
+		if c.Entry == nil {
+			break
+		}
+		d := cp()
+		d.Prelude = f
+		if pinned {
+			d.Budgets, d.Cancels, d.Sweep = nil, nil, true
+		}
+		out = append(out, d)
+	}
 	for _, f := range ShrinkForms(c.Forms, 400) {
+		if c.Entry != nil {
+			break
+		}
 		d := cp()
 		d.Forms = f
 		if pinned {
